@@ -140,6 +140,28 @@ class API:
         except BaseException as e:  # the real code's own exceptional exit
             return Outcome("raise", exc=e)
 
+    def drive(self, coro, on_await=None, max_steps=50):
+        """Step a coroutine (async def of /repo run natively): each awaited stub object is handed
+        to on_await(obj) -> ("send", value) | ("throw", exc).  Returns the Outcome."""
+        try:
+            action, payload = "send", None
+            for _ in range(max_steps):
+                try:
+                    awaited = coro.send(payload) if action == "send" else coro.throw(payload)
+                except StopIteration as e:
+                    return Outcome("return", e.value)
+                except (core.PathEnd, core.Unsupported):
+                    raise
+                except BaseException as e:
+                    return Outcome("raise", exc=e)
+                action, payload = on_await(awaited) if on_await else ("send", None)
+            raise core.Unsupported("coroutine did not finish within %d awaits" % max_steps)
+        finally:
+            try:
+                coro.close()
+            except BaseException:
+                pass
+
     def only_raises(self, out, allowed, label=""):
         """raises(only=allowed): an exit by any other exception must be infeasible."""
         if out.raised and not isinstance(out.exc, allowed):
